@@ -218,6 +218,13 @@ def run(prog, rep, tier):
         rep.violation(R94, bd.path + "|distinct", "JournalReader: renderings %s are dispatched identically (same renderer and constants)" % sorted(dup))
     rep.floor(R94, 8)
 
+    # ------------------------------------------------------------ R9.5 (shared instant-preservation lint)
+    import instant
+    R95i = rep.rule("R9.5", "conversions between the window's datetime and the journal realtime timestamp preserve the instant")
+    n_sites = instant.check(prog, rep, R95i, lambda p: ('readers::journalreader' in p or 'data::journal' in p) and '_tests' not in p, "the -a/-b window applied to journal entries shifts by the filter's own UTC offset")
+    if n_sites < 2:
+        raise CheckerError("R9.5: only %d chrono conversion sites found in scope (expected at least 2)" % n_sites)
+
     return rep.finish(
         "Static necessary-condition check of the journal reader: the entry instant is the journal receive time (constant override; the window "
         "test value flows from sd_journal_get_realtime_usec) and -a/-b are converted as instants; libsystemd is only asked to seek in analyze "
